@@ -1,7 +1,7 @@
 SPECIFICATION Spec
 CONSTANTS Cfg <- TheCfg
- Wedge = TRUE
- MakeOnPending = "cancel"
+ Wedge = FALSE
+ MakeOnPending = "replace"
  FireDropsBs = FALSE
 INVARIANT Mark
 POSTCONDITION Post
